@@ -1,6 +1,9 @@
-(* C19/Properties.v — the property theorems.  Repaired = behaviour after fixes/C19_*.patch (full theorems);
-   Defective = today's /repo (the _refuted witnesses).  Specification-side definitions (item, enc, wf_pkt,
-   frame4_ok, ...) live at the top of the sections of Proofs.v. *)
+(* C19/Properties.v — the property theorems.  Repaired = /repo HEAD (the five C19 fixes are committed there; the full
+   theorems are about it); Defective = the code before those commits (kept for the _refuted witnesses, so that a
+   regression is recognised).  Specification-side definitions (item, enc, wf_pkt, wf_tail, frame4_ok, ...) live in
+   Proofs.v.  A "well-formed" DHCPv4 message is wf_pkt hdr its tl with wf_tail tl: 240 header bytes, pads and complete
+   options in any order, then EITHER the end of the packet (missing END) OR END + arbitrary trailer;
+   C19_decodable_is_wf shows that this is every message the reference decoder can decode. *)
 From OV Require Import Common.Base C19.Model C19.Proofs.
 Open Scope N_scope.
 
@@ -51,34 +54,34 @@ Print Assumptions C19_ipv6_frame_verifies.
 (* ---------------------------------------------------------------- option 82 *)
 (* InsertOption82 (all three policies) and StripOption82 on every well-formed options area (pads and complete
    options in any order, any number of pre-existing option 82, END, arbitrary bytes after END): byte-exact result *)
-Theorem C19_opt82_insert_bytes : forall hdr its trail o82 pol, length hdr = 240%nat -> Forall item_ok its ->
-  insert_option82 Repaired (wf_pkt hdr its trail) o82 pol =
+Theorem C19_opt82_insert_bytes : forall hdr its tl o82 pol, length hdr = 240%nat -> Forall item_ok its -> wf_tail tl ->
+  insert_option82 Repaired (wf_pkt hdr its tl) o82 pol =
   Ok (match pol with
-      | Replace => replaced82 hdr its o82 trail
-      | Drop => wf_pkt hdr (drop_code 82 its) trail
-      | Keep => if existsb (is_code 82) its then wf_pkt hdr its trail else replaced82 hdr its o82 trail
+      | Replace => replaced82 hdr its o82 tl
+      | Drop => wf_pkt hdr (drop_code 82 its) tl
+      | Keep => if existsb (is_code 82) its then wf_pkt hdr its tl else replaced82 hdr its o82 tl
       end).
 Proof. exact insert_option82_repaired. Qed.
 Print Assumptions C19_opt82_insert_bytes.
 
-Theorem C19_opt82_strip_bytes : forall hdr its trail, length hdr = 240%nat -> Forall item_ok its ->
-  strip_option82 Repaired (wf_pkt hdr its trail) = Ok (wf_pkt hdr (drop_code 82 its) trail).
+Theorem C19_opt82_strip_bytes : forall hdr its tl, length hdr = 240%nat -> Forall item_ok its -> wf_tail tl ->
+  strip_option82 Repaired (wf_pkt hdr its tl) = Ok (wf_pkt hdr (drop_code 82 its) tl).
 Proof. exact strip_option82_repaired. Qed.
 Print Assumptions C19_opt82_strip_bytes.
 
 (* faithfulness, stated with the independent RFC 2131 decoder: the fixed header (xid, chaddr, ...) is untouched,
    all other options keep their order and value, option 82 appears exactly once with the relay's value, END and
    the bytes after it are preserved *)
-Theorem C19_opt82_replace_faithful : forall hdr its trail d, length hdr = 240%nat -> Forall item_ok its -> (length d <= 255)%nat ->
-  exists out, insert_option82 Repaired (wf_pkt hdr its trail) (82 :: blen d :: d) Replace = Ok out /\
+Theorem C19_opt82_replace_faithful : forall hdr its tl d, length hdr = 240%nat -> Forall item_ok its -> wf_tail tl -> (length d <= 255)%nat ->
+  exists out, insert_option82 Repaired (wf_pkt hdr its tl) (82 :: blen d :: d) Replace = Ok out /\
     firstn 240 out = hdr /\
-    ref_options out = (filter (not_code 82) (opts_of its) ++ [(82, d)], EndSeen trail).
+    ref_options out = (filter (not_code 82) (opts_of its) ++ [(82, d)], tail_end tl).
 Proof. exact opt82_replace_faithful. Qed.
 Print Assumptions C19_opt82_replace_faithful.
 
 Example C19_opt82_nonvacuous :
   length ex_hdr = 240%nat /\ Forall item_ok ex_two82 /\
-  exists out, insert_option82 Repaired (wf_pkt ex_hdr ex_two82 [0;0]) [82;3;1;1;90] Replace = Ok out /\
+  exists out, insert_option82 Repaired (wf_pkt ex_hdr ex_two82 [255;0;0]) [82;3;1;1;90] Replace = Ok out /\
               ref_options out = ([(53, [1]); (82, [1;1;90])], EndSeen [0;0]).
 Proof. split; [reflexivity|]. split; [exact ex_two82_ok|]. eexists. vm_compute. split; reflexivity. Qed.
 Print Assumptions C19_opt82_nonvacuous.
@@ -86,7 +89,7 @@ Print Assumptions C19_opt82_nonvacuous.
 (* today's code: with two pre-existing option 82 the "replace" policy leaves one of the client's in place *)
 Theorem C19_opt82_replace_refuted :
   exists hdr its trail d out, length hdr = 240%nat /\ Forall item_ok its /\ (length d <= 255)%nat /\
-    insert_option82 Defective (wf_pkt hdr its trail) (82 :: blen d :: d) Replace = Ok out /\
+    insert_option82 Defective (wf_pkt hdr its (255 :: trail)) (82 :: blen d :: d) Replace = Ok out /\
     count_opt 82 (fst (ref_options out)) = 2%nat /\ opt_value 82 (fst (ref_options out)) <> d.
 Proof.
   exists ex_hdr, ex_two82, [], [1;1;90]. eexists. split; [reflexivity|]. split; [exact ex_two82_ok|].
@@ -96,7 +99,7 @@ Print Assumptions C19_opt82_replace_refuted.
 
 Theorem C19_opt82_strip_refuted :
   exists hdr its trail out, length hdr = 240%nat /\ Forall item_ok its /\
-    strip_option82 Defective (wf_pkt hdr its trail) = Ok out /\ count_opt 82 (fst (ref_options out)) = 1%nat.
+    strip_option82 Defective (wf_pkt hdr its (255 :: trail)) = Ok out /\ count_opt 82 (fst (ref_options out)) = 1%nat.
 Proof.
   exists ex_hdr, ex_two82, []. eexists. split; [reflexivity|]. split; [exact ex_two82_ok|]. vm_compute. split; reflexivity.
 Qed.
@@ -106,24 +109,24 @@ Print Assumptions C19_opt82_strip_refuted.
 (* SetOptionUint32 / SetOptionIP (4-byte value) on every well-formed options area, whatever the number and length
    of pre-existing instances of the target: the result is again well-formed with the same fixed header and trailer,
    all other options are preserved in order, the target appears exactly once with the intended value *)
-Theorem C19_rewrite_faithful : forall hdr its trail code val4, length hdr = 240%nat -> Forall item_ok its ->
+Theorem C19_rewrite_faithful : forall hdr its tl code val4, length hdr = 240%nat -> Forall item_ok its -> wf_tail tl ->
   code <> 0 -> code <> 255 -> length val4 = 4%nat ->
-  exists out, set_option4 Repaired (wf_pkt hdr its trail) code val4 = Ok out /\
-    exists its', out = wf_pkt hdr its' trail /\ Forall item_ok its' /\
+  exists out, set_option4 Repaired (wf_pkt hdr its tl) code val4 = Ok out /\
+    exists its', out = wf_pkt hdr its' tl /\ Forall item_ok its' /\
       filter (not_code code) (opts_of its') = filter (not_code code) (opts_of its) /\
       filter (has_code code) (opts_of its') = [(code, val4)].
 Proof. exact set_option4_repaired. Qed.
 Print Assumptions C19_rewrite_faithful.
 
 (* the decoded view of such a result (independent decoder) *)
-Theorem C19_wf_decodes : forall hdr its trail, length hdr = 240%nat -> Forall item_ok its ->
-  ref_options (wf_pkt hdr its trail) = (opts_of its, EndSeen trail).
+Theorem C19_wf_decodes : forall hdr its tl, length hdr = 240%nat -> Forall item_ok its -> wf_tail tl ->
+  ref_options (wf_pkt hdr its tl) = (opts_of its, tail_end tl).
 Proof. exact ref_options_wf. Qed.
 Print Assumptions C19_wf_decodes.
 
 Example C19_rewrite_nonvacuous :
   Forall item_ok ex_badlen /\
-  exists out, set_option4 Repaired (wf_pkt ex_hdr ex_badlen []) 51 (put32 3600) = Ok out /\
+  exists out, set_option4 Repaired (wf_pkt ex_hdr ex_badlen [255]) 51 (put32 3600) = Ok out /\
               ref_options out = ([(53, [5]); (54, [1;2;3;4]); (51, [0;0;14;16])], EndSeen []).
 Proof. split; [exact ex_badlen_ok|]. eexists. vm_compute. split; reflexivity. Qed.
 Print Assumptions C19_rewrite_nonvacuous.
@@ -131,7 +134,7 @@ Print Assumptions C19_rewrite_nonvacuous.
 (* today's code: a target option of another length gets a second copy *)
 Theorem C19_rewrite_faithful_refuted :
   exists hdr its trail code val4 out, length hdr = 240%nat /\ Forall item_ok its /\ length val4 = 4%nat /\
-    set_option4 Defective (wf_pkt hdr its trail) code val4 = Ok out /\
+    set_option4 Defective (wf_pkt hdr its (255 :: trail)) code val4 = Ok out /\
     count_opt code (fst (ref_options out)) = 2%nat.
 Proof.
   exists ex_hdr, ex_badlen, [], 51, (put32 3600). eexists. split; [reflexivity|]. split; [exact ex_badlen_ok|].
@@ -141,10 +144,10 @@ Print Assumptions C19_rewrite_faithful_refuted.
 
 (* RewriteForProxy: server-id, lease, T1, T2 each exactly once with the intended values (T2 = 7/8 lease computed
    without wrap-around), everything else preserved in order *)
-Theorem C19_proxy_faithful : forall hdr its trail sid ip4 lease, length hdr = 240%nat -> Forall item_ok its ->
+Theorem C19_proxy_faithful : forall hdr its tl sid ip4 lease, length hdr = 240%nat -> Forall item_ok its -> wf_tail tl ->
   to4 sid = Some ip4 ->
-  exists out its', rewrite_for_proxy Repaired (wf_pkt hdr its trail) sid lease = Ok out /\
-    out = wf_pkt hdr its' trail /\ Forall item_ok its' /\
+  exists out its', rewrite_for_proxy Repaired (wf_pkt hdr its tl) sid lease = Ok out /\
+    out = wf_pkt hdr its' tl /\ Forall item_ok its' /\
     filter (has_code 54) (opts_of its') = [(54, ip4)] /\
     filter (has_code 51) (opts_of its') = [(51, put32 lease)] /\
     filter (has_code 58) (opts_of its') = [(58, put32 (lease / 2))] /\
@@ -155,7 +158,7 @@ Print Assumptions C19_proxy_faithful.
 
 Example C19_proxy_nonvacuous :
   Forall item_ok ex_server /\
-  exists out, rewrite_for_proxy Repaired (wf_pkt ex_hdr ex_server [0]) (Some [10;0;0;1]) 4294967295 = Ok out /\
+  exists out, rewrite_for_proxy Repaired (wf_pkt ex_hdr ex_server [255;0]) (Some [10;0;0;1]) 4294967295 = Ok out /\
     ref_options out = ([(53, [5]); (54, [10;0;0;1]); (51, [255;255;255;255]); (58, [127;255;255;255]);
                         (59, [223;255;255;255]); (1, [255;255;255;0])], EndSeen [0]).
 Proof. split; [exact ex_server_ok|]. eexists. vm_compute. split; reflexivity. Qed.
@@ -164,7 +167,7 @@ Print Assumptions C19_proxy_nonvacuous.
 (* today's code: for the infinite lease T2 (option 59) comes out smaller than T1 (option 58) *)
 Theorem C19_proxy_t2_refuted :
   exists hdr its trail sid lease out, length hdr = 240%nat /\ Forall item_ok its /\ lease < 4294967296 /\
-    rewrite_for_proxy Defective (wf_pkt hdr its trail) sid lease = Ok out /\
+    rewrite_for_proxy Defective (wf_pkt hdr its (255 :: trail)) sid lease = Ok out /\
     be_num (opt_value 59 (fst (ref_options out))) < be_num (opt_value 58 (fst (ref_options out))).
 Proof.
   exists ex_hdr, ex_server, [], (Some [10;0;0;1]), 4294967295. eexists. split; [reflexivity|]. split; [exact ex_server_ok|].
@@ -265,3 +268,241 @@ Theorem C19_t1_le_t2 : forall x, x / 2 <= t2_of Repaired x /\ pref_t1 x <= pref_
                                  t2_of Repaired x <= x /\ pref_t2 Repaired x <= x.
 Proof. exact t1_le_t2. Qed.
 Print Assumptions C19_t1_le_t2.
+
+(* ================================================================ audit round *)
+(* ---------------------------------------------------------------- domain of the DHCPv4 rewrite theorems *)
+(* every message of at least 240 bytes whose options area the reference decoder can walk without hitting a cut-off
+   option IS a wf_pkt (pads anywhere, any option order, with or without END): the rewrite theorems above therefore
+   cover every decodable client/server message.  Messages with a truncated last option are not decodable DHCP
+   messages (gopacket refuses them, too) and are outside the property's domain. *)
+Theorem C19_decodable_is_wf : forall pkt, bytes_ok pkt -> (240 <= length pkt)%nat -> snd (ref_options pkt) <> Truncated ->
+  exists hdr its tl, pkt = wf_pkt hdr its tl /\ length hdr = 240%nat /\ Forall item_ok its /\ wf_tail tl /\
+                     ref_options pkt = (opts_of its, tail_end tl).
+Proof. exact decodable_is_wf. Qed.
+Print Assumptions C19_decodable_is_wf.
+
+(* messages WITHOUT an END option (options run to the end of the packet): the rewriters append at the end of the packet
+   and do not add END; the result decodes (NoEnd) to the old options minus the target plus the new one *)
+Example C19_noend_nonvacuous :
+  wf_tail [] /\
+  exists o1 o2, insert_option82 Repaired (wf_pkt ex_hdr ex_two82 []) [82;3;1;1;90] Replace = Ok o1 /\
+                ref_options o1 = ([(53, [1]); (82, [1;1;90])], NoEnd) /\
+                set_option4 Repaired (wf_pkt ex_hdr ex_badlen []) 51 (put32 3600) = Ok o2 /\
+                ref_options o2 = ([(53, [5]); (54, [1;2;3;4]); (51, [0;0;14;16])], NoEnd).
+Proof. split; [left; reflexivity|]. eexists. eexists. vm_compute. repeat split. Qed.
+Print Assumptions C19_noend_nonvacuous.
+
+Example C19_opt82_keep_drop_strip_nonvacuous :
+  insert_option82 Repaired (wf_pkt ex_hdr ex_two82 [255]) [82;1;9] Keep = Ok (wf_pkt ex_hdr ex_two82 [255]) /\
+  insert_option82 Repaired (wf_pkt ex_hdr ex_two82 [255]) [82;1;9] Drop = Ok (wf_pkt ex_hdr [Opt 53 [1]; Pad] [255]) /\
+  strip_option82 Repaired (wf_pkt ex_hdr ex_two82 [255]) = Ok (wf_pkt ex_hdr [Opt 53 [1]; Pad] [255]) /\
+  insert_option82 Repaired (wf_pkt ex_hdr [Opt 53 [1]] [255]) [82;1;9] Keep = Ok (wf_pkt ex_hdr [Opt 53 [1]; Opt 82 [9]] [255]).
+Proof. vm_compute. repeat split. Qed.
+Print Assumptions C19_opt82_keep_drop_strip_nonvacuous.
+
+(* ---------------------------------------------------------------- the other IPv4 framers *)
+(* WrapIPUDP (the relay/proxy framer, ports 67->68) and BuildUDPPacket: as C19_ipv4_frame_verifies, plus the header
+   fields are the requested ones (0x45, TTL 64, protocol 17, addresses, ports) and the UDP checksum is never 0 *)
+Theorem C19_wrap_frame_verifies : forall payload src dst s4 d4,
+  to4 src = Some s4 -> to4 dst = Some d4 -> ip_ok src -> ip_ok dst -> bytes_ok payload -> blen payload <= 65507 ->
+  exists f, wrap_ip_udp payload src dst = Ok f /\ frame4_ok f payload /\ frame4_fields f s4 d4 67 68 /\
+            firstn 2 (skipn 26 f) <> [0; 0].
+Proof. exact wrap_ip_udp_ok. Qed.
+Print Assumptions C19_wrap_frame_verifies.
+
+Theorem C19_udp_packet_verifies : forall src dst sp dp payload s4 d4,
+  to4 src = Some s4 -> to4 dst = Some d4 -> ip_ok src -> ip_ok dst -> bytes_ok payload ->
+  sp < 65536 -> dp < 65536 -> blen payload <= 65507 ->
+  exists f, build_udp_packet src dst sp dp payload = Ok f /\ frame4_ok f payload /\ frame4_fields f s4 d4 sp dp /\
+            firstn 2 (skipn 26 f) <> [0; 0].
+Proof. exact build_udp_packet_ok. Qed.
+Print Assumptions C19_udp_packet_verifies.
+
+Theorem C19_ipv4_frame_fields : forall v src dst sp dp payload s4 d4 f,
+  to4 src = Some s4 -> to4 dst = Some d4 -> build_ipv4_udp_frame v src dst sp dp payload = Ok (Some f) ->
+  frame4_fields f s4 d4 sp dp.
+Proof. exact build_ipv4_udp_frame_fields. Qed.
+Print Assumptions C19_ipv4_frame_fields.
+
+(* non-vacuity on the hard paths: a payload whose 32-bit sum needs the SECOND end-around-carry fold, and one whose
+   checksum computes to zero (sent as 0xFFFF), through all three IPv4 framers *)
+Example C19_frames_carry_nonvacuous :
+  let s := Some [255;255;122;210] in let d := Some [255;255;255;255] in
+  fold_loop 1 (sum_words [255;255;122;210] + sum_words [255;255;255;255] + 17 + 10 + (0 + 68 + 10 + sum_words [132;199])) = OutOfFuel /\
+  (exists f, build_ipv4_udp_frame Repaired s d 0 68 [132;199] = Ok (Some f) /\ verifies (pseudo4 f ++ skipn 20 f) = true) /\
+  (exists f, build_udp_packet s d 0 68 [132;199] = Ok f /\ verifies (pseudo4 f ++ skipn 20 f) = true) /\
+  (exists f, wrap_ip_udp [132;199] s d = Ok f /\ verifies (firstn 20 f) = true /\ verifies (pseudo4 f ++ skipn 20 f) = true) /\
+  (exists f, build_ipv4_udp_frame Repaired (Some [10;0;0;1]) d 67 68 [245;82] = Ok (Some f) /\ firstn 2 (skipn 26 f) = [255;255] /\
+             verifies (pseudo4 f ++ skipn 20 f) = true).
+Proof. cbv zeta. split; [vm_compute; reflexivity|]. repeat split; eexists; vm_compute; repeat split. Qed.
+Print Assumptions C19_frames_carry_nonvacuous.
+
+(* ---------------------------------------------------------------- BuildOption82 *)
+(* the built option is 82, one length byte equal to the body length (<= 255 including the 3 flag bytes), and the body is
+   exactly the sub-options circuit-id, remote-id[, flags] under a strict TLV decoder; above 255 bytes an error *)
+Theorem C19_option82_build : forall fl un circuit remote,
+  ((o82_len fl circuit remote <= 255)%nat ->
+     exists body, build_option82 fl un circuit remote = Ok (82 :: blen body :: body) /\
+                  length body = o82_len fl circuit remote /\ sub_tlv 4 body = Some (o82_subs fl un circuit remote)) /\
+  ((255 < o82_len fl circuit remote)%nat -> exists e, build_option82 fl un circuit remote = Err e).
+Proof. exact build_option82_spec. Qed.
+Print Assumptions C19_option82_build.
+
+(* the relay path InsertOption82(pkt, BuildOption82(...), replace): option 82 exactly once, its value decodes to the
+   configured sub-options, everything else preserved (END-terminated or not) *)
+Theorem C19_option82_build_insert : forall hdr its tl fl un circuit remote,
+  length hdr = 240%nat -> Forall item_ok its -> wf_tail tl -> (o82_len fl circuit remote <= 255)%nat ->
+  exists o82 out body, build_option82 fl un circuit remote = Ok o82 /\
+    insert_option82 Repaired (wf_pkt hdr its tl) o82 Replace = Ok out /\ firstn 240 out = hdr /\
+    ref_options out = (filter (not_code 82) (opts_of its) ++ [(82, body)], tail_end tl) /\
+    sub_tlv 4 body = Some (o82_subs fl un circuit remote).
+Proof. exact build_and_insert_option82. Qed.
+Print Assumptions C19_option82_build_insert.
+
+Example C19_option82_build_nonvacuous :
+  build_option82 true true [101;116;104;48] [170;187] = Ok [82;13; 1;4;101;116;104;48; 2;2;170;187; 10;1;1] /\
+  (exists e, build_option82 true false (repeat 65 125) (repeat 66 124) = Err e) /\
+  (exists b, build_option82 false false (repeat 65 125) (repeat 66 126) = Ok b /\ length b = 257%nat).
+Proof. split; [reflexivity|]. split; eexists; vm_compute; repeat split. Qed.
+Print Assumptions C19_option82_build_nonvacuous.
+
+(* ---------------------------------------------------------------- lease parameters -> reply (resolved path and pool path) *)
+(* buildResponseFromResolved for ALL lease parameters (any mask, 0..n DNS servers, any valid RFC 3442 routes, any
+   per-pool raw options that pass config validation ip.DHCPOption.Validate = raw_option_valid): the DHCP payload
+   exists; framed (when it fits 65507 bytes) its lengths/checksums verify and addresses/ports are server -> broadcast,
+   67 -> 68; decoded with the reference decoder: xid, yiaddr, siaddr, chaddr, cookie, END; for every option code the
+   RFC 3396 value is the intended one; the route bytes decode (RFC 3442) to the configured routes; when no value
+   exceeds 255 bytes the decoded option list IS the intended list (nothing added, nothing lost, order kept) *)
+Theorem C19_resolved_reply_decodes : forall xid ci hw mt yip router sid mask dns lease routes extra src s4,
+  xid < 4294967296 -> (length hw <= 16)%nat -> lease < 4294967296 ->
+  ip_ok ci -> ip_ok yip -> ip_ok router -> ip_ok sid -> bytes_ok hw -> bytes_ok mask -> Forall ip_ok dns ->
+  Forall route_ok routes -> Forall (fun r => ip_ok (snd (fst r)) /\ ip_ok (snd r)) routes -> Forall raw_ok extra ->
+  src = match sid with Some _ => sid | None => router end -> to4 src = Some s4 ->
+  exists rt payload view,
+    (routes <> [] -> classless routes = Ok rt /\ ref_routes (length routes + 1) rt = Some (map route_view routes)) /\
+    build_dhcp4_reply Repaired xid ci yip src hw mt (resolved_opts lease mask sid router dns rt routes extra) = Ok payload /\
+    bytes_ok payload /\
+    (blen payload <= 65507 ->
+       exists f, build_response_resolved Repaired xid ci hw mt yip router sid mask dns lease routes extra = Ok (Some f) /\
+                 frame4_ok f payload /\ frame4_fields f s4 bcast 67 68 /\ firstn 2 (skipn 26 f) <> [0; 0]) /\
+    ref_decode4 payload = Some view /\ v_op view = 2 /\ v_xid view = xid /\ v_yiaddr view = ip4_field yip /\
+    v_siaddr view = s4 /\ v_chaddr view = hw ++ zeros (16 - length hw) /\ v_cookie_ok view = true /\ v_end view = EndSeen [] /\
+    (forall code, opt_value code (v_opts view) =
+                  concat (map snd (filter (has_code code) ((53, [mt mod 256]) :: resolved_opts lease mask sid router dns rt routes extra)))) /\
+    ((length mask <= 255)%nat -> (length (dns_data dns) <= 255)%nat -> (length rt <= 255)%nat ->
+       v_opts view = (53, [mt mod 256]) :: resolved_opts lease mask sid router dns rt routes extra).
+Proof. exact resolved_reply. Qed.
+Print Assumptions C19_resolved_reply_decodes.
+
+(* "each targeted option exactly once": with validated raw options every option the server emits itself
+   (53, 51, 1, 54, 3, 6, 121) occurs at most once in the intended list (53, 51, 1 exactly once) *)
+Theorem C19_reply_std_once : forall mt lease mask sid router dns rt routes extra c, Forall raw_ok extra -> In c std_codes ->
+  Nat.le (length (filter (has_code c) ((53, [mt mod 256]) :: resolved_opts lease mask sid router dns rt routes extra))) 1.
+Proof. exact std_once. Qed.
+Print Assumptions C19_reply_std_once.
+
+(* without the config validation a raw option with a built-in code is simply emitted as well: two instances of
+   option 51 (lease time).  Not a finding: config.validateDHCPOptions (pkg/config/validate_dhcp_options.go) rejects such a
+   configuration at load time, which is exactly the hypothesis raw_ok of the theorems above. *)
+Theorem C19_reply_unvalidated_raw_refuted :
+  exists extra p view, raw_option_valid (51, [0;0;0;1]) = false /\ extra = [(51, [0;0;0;1])] /\
+    build_dhcp4_reply Repaired 1 None None None [] 5 (resolved_opts 3600 [255;255;255;0] None None [] [] [] extra) = Ok p /\
+    ref_decode4 p = Some view /\ count_opt 51 (v_opts view) = 2%nat.
+Proof. eexists. eexists. eexists. vm_compute. repeat split. Qed.
+Print Assumptions C19_reply_unvalidated_raw_refuted.
+
+Theorem C19_pool_reply_decodes : forall xid ci hw mt ip gateway g4 mask dns lease extra,
+  xid < 4294967296 -> (length hw <= 16)%nat -> ip_ok ci -> ip_ok ip -> ip_ok gateway -> bytes_ok hw -> bytes_ok mask ->
+  Forall ip_ok dns -> Forall raw_ok extra -> to4 gateway = Some g4 ->
+  exists payload view,
+    build_dhcp4_reply Repaired xid ci ip gateway hw mt (pool_opts lease mask g4 dns extra) = Ok payload /\ bytes_ok payload /\
+    (blen payload <= 65507 ->
+       exists f, build_response_pool Repaired xid ci hw mt ip gateway mask dns lease extra = Ok (Some f) /\
+                 frame4_ok f payload /\ frame4_fields f g4 bcast 67 68 /\ firstn 2 (skipn 26 f) <> [0; 0]) /\
+    ref_decode4 payload = Some view /\ v_op view = 2 /\ v_xid view = xid /\ v_yiaddr view = ip4_field ip /\
+    v_chaddr view = hw ++ zeros (16 - length hw) /\ v_cookie_ok view = true /\ v_end view = EndSeen [] /\
+    (forall code, opt_value code (v_opts view) =
+                  concat (map snd (filter (has_code code) ((53, [mt mod 256]) :: pool_opts lease mask g4 dns extra)))).
+Proof. exact pool_reply. Qed.
+Print Assumptions C19_pool_reply_decodes.
+
+Example C19_resolved_reply_nonvacuous :
+  let routes := [(0, Some [0;0;0;0], Some [10;0;0;1]); (24, Some [192;168;7;0], Some [10;0;0;9])] in
+  Forall route_ok routes /\ Forall raw_ok [(43, [1;2;3])] /\
+  exists f, build_response_resolved Repaired 7 None [170;187;204;221;238;255] 5 (Some [10;0;0;2]) (Some [10;0;0;1]) (Some [10;0;0;1])
+              [255;255;255;255] [Some [8;8;8;8]] 3600 routes [(43, [1;2;3])] = Ok (Some f) /\
+            verifies (firstn 20 f) = true /\ verifies (pseudo4 f ++ skipn 20 f) = true /\
+            bind_opt (ref_decode4 (skipn 28 f)) (fun v => Some (v_opts v)) =
+              Some [(53, [5]); (51, [0;0;14;16]); (1, [255;255;255;255]); (54, [10;0;0;1]); (3, [10;0;0;1]); (6, [8;8;8;8]);
+                    (121, [0;10;0;0;1; 24;192;168;7;10;0;0;9]); (43, [1;2;3])].
+Proof.
+  cbv zeta. split; [repeat constructor; cbn; lia|]. split; [repeat constructor; cbn; lia|]. eexists. vm_compute. repeat split.
+Qed.
+Print Assumptions C19_resolved_reply_nonvacuous.
+
+(* ---------------------------------------------------------------- DHCPv6 rewriters *)
+(* RewriteV6Lifetimes on any message with a well-formed option list: the TLV framing is untouched (same codes, same
+   lengths, same order); options other than IA_NA/IA_PD/IAADDR/IAPREFIX are unchanged byte for byte; in IA_NA/IA_PD the
+   IAID is kept and T1/T2 are pref/2 and pref*4/5 (no wrap); in IAADDR / IAPREFIX only the two lifetimes change *)
+Theorem C19_v6_lifetimes_framing : forall v h4 os pref valid, length h4 = 4%nat -> Forall opt6_ok os ->
+  exists dp, rewrite_v6_lifetimes v (h4 ++ enc6 os) pref valid = h4 ++ enc6 (map (rw_opt v dp pref valid) os).
+Proof. exact rewrite_v6_lifetimes_spec. Qed.
+Print Assumptions C19_v6_lifetimes_framing.
+
+Theorem C19_v6_lifetimes_fields : forall v dp pref valid o,
+  fst (rw_opt v dp pref valid o) = fst o /\ length (snd (rw_opt v dp pref valid o)) = length (snd o) /\
+  (fst o <> 3 -> fst o <> 25 -> fst o <> 5 -> fst o <> 26 -> rw_opt v dp pref valid o = o) /\
+  ((fst o = 3 \/ fst o = 25) -> (12 <= length (snd o))%nat ->
+     firstn 4 (snd (rw_opt v dp pref valid o)) = firstn 4 (snd o) /\
+     firstn 8 (skipn 4 (snd (rw_opt v dp pref valid o))) = put32 (pref_t1 pref) ++ put32 (pref_t2 v pref)) /\
+  (fst o = 5 -> (24 <= length (snd o))%nat ->
+     snd (rw_opt v dp pref valid o) = firstn 16 (snd o) ++ put32 pref ++ put32 valid ++ skipn 24 (snd o)) /\
+  (fst o = 26 -> (8 <= length (snd o))%nat ->
+     snd (rw_opt v dp pref valid o) = put32 pref ++ put32 valid ++ skipn 8 (snd o)).
+Proof. exact rw_opt_facts. Qed.
+Print Assumptions C19_v6_lifetimes_fields.
+
+(* the IA body keeps its length through the nested rewrite *)
+Theorem C19_v6_rewrite_length : forall v dp f pref valid l, length (rewrite6 v dp f pref valid l) = length l.
+Proof. exact rewrite6_length. Qed.
+Print Assumptions C19_v6_rewrite_length.
+
+Example C19_v6_lifetimes_nonvacuous :
+  let ia := [0;0;0;9; 0;0;0;1; 0;0;0;2] ++ opt6 5 (zeros 15 ++ [1] ++ [0;0;0;3; 0;0;0;4]) in
+  rewrite_v6_lifetimes Repaired ([7;1;2;3] ++ enc6 [(1, [0;1]); (3, ia); (23, zeros 16)]) 4294967295 100 =
+  [7;1;2;3] ++ enc6 [(1, [0;1]);
+                     (3, [0;0;0;9; 127;255;255;255; 204;204;204;204] ++ opt6 5 (zeros 15 ++ [1] ++ [255;255;255;255; 0;0;0;100]));
+                     (23, zeros 16)].
+Proof. vm_compute. reflexivity. Qed.
+Print Assumptions C19_v6_lifetimes_nonvacuous.
+
+(* ReplaceServerDUID: only the first Server Identifier option changes, to exactly the new DUID (any length), and
+   GetServerDUID reads it back *)
+Theorem C19_v6_replace_duid : forall h4 a d b nd, length h4 = 4%nat -> Forall opt6_ok a -> Forall (fun o => fst o <> 2) a ->
+  blen d < 65536 -> blen nd < 65536 ->
+  replace_server_duid (h4 ++ enc6 (a ++ (2, d) :: b)) nd = h4 ++ enc6 (a ++ (2, nd) :: b) /\
+  get_server_duid (h4 ++ enc6 (a ++ (2, nd) :: b)) = Some nd.
+Proof. exact replace_server_duid_spec. Qed.
+Print Assumptions C19_v6_replace_duid.
+
+(* unwrapping ANY relay message (relay-forward or a server's relay-reply, options in any order, anything after the
+   Relay-Message option): the first Relay-Message option's content is returned *)
+Theorem C19_relay_unwrap_any : forall hdr os inner rest, length hdr = 34%nat -> Forall opt6_ok os -> Forall (fun o => fst o <> 9) os ->
+  blen inner < 65536 -> extract_relay_message (hdr ++ enc6 os ++ opt6 9 inner ++ rest) = Some inner.
+Proof. exact extract_any. Qed.
+Print Assumptions C19_relay_unwrap_any.
+
+Example C19_relay_nonvacuous :
+  let inner := [7;1;2;3] ++ opt6 1 [0;1] in
+  let p := {| rp_hop := 1; rp_link := Some (zeros 15 ++ [1]); rp_peer := None; rp_ifid := [101]; rp_remote := [9;9]; rp_ent := 3561; rp_sub := [] |} in
+  extract_relay_message (build_relay_forward inner p) = Some inner /\
+  unwrap_relay_reply (build_relay_reply inner 0 None None [101]) = Ok inner /\
+  bind_opt (unwrap_relay_reply6 3 ([13;0] ++ zeros 32 ++ opt6 18 [5] ++ opt6 9 (build_relay_reply inner 0 None None []))) q_client = Some [0;1].
+Proof. vm_compute. repeat split. Qed.
+Print Assumptions C19_relay_nonvacuous.
+
+Example C19_ipv6_frame_nonvacuous :
+  exists f, build_ipv6_udp_frame (Some (repeat 255 16)) (Some (repeat 255 16)) 547 546 [255;255;0;0] = Ok (Some f) /\
+            length f = 52%nat /\ verifies (pseudo6 f ++ skipn 40 f) = true.
+Proof. eexists. vm_compute. repeat split. Qed.
+Print Assumptions C19_ipv6_frame_nonvacuous.
